@@ -245,7 +245,7 @@ func CheckC17(c *Ctx) {
 	c.Extra["toolchain"] = runtime.Version()
 	c.Extra["calls_per_measurement"] = n
 	c.SetReport(Report{
-		Rule:        "steady-state heap allocations per call measured with runtime.MemStats.Mallocs around " + fmt.Sprint(n) + " calls after " + fmt.Sprint(warm) + " warm-up calls, GOMAXPROCS(1), GC off, concrete methods called directly, results kept alive in package-level sinks; minimum over up to 4 repetitions (stray runtime allocations only add). Budget: successful ParseVector <= 1, Vector() == 1, Get/Set on a known metric (legal and illegal values), every scoring method, Rating, Nomenclature == 0. Also measured with MemStats read between a PRECEDING call (each of ~40 valid/invalid vectors per version, every error kind) and the measured call, so that an allocation pushed onto the next call by an earlier one (pool buffer not returned on an error path) is seen. EXHAUSTIVE WALK for Vector(): every configuration of the optional metrics of v2.0 (192,000), and in thorough of v3.0/v3.1 (221,184,000 each) and of v4.0's threat+environmental metrics (1,179,648,000; supplemental seeded per chunk) -- quick: 1 chunk in 25 / 64 -- visited in Gray-code order on a concrete object, allocations counted per block of 32,768 calls (must equal the number of calls; excess re-walked, then bracketed per call). EXHAUSTIVE SCORE WALK for the methods that must not allocate: one object per chunk driven by single legal Set calls through v2.0's 139,968,000 assignments (quick: 3 of 27 chunks), v3.x's 16,588,800 effective classes through base metrics (quick: 2 of 8 chunks) plus all defined Modified assignments over a decoy base x 216 temporal/requirement settings, v4.0's base x defined E/CR/IR/AR x MSI/MSA in {X,S} (34,012,224; quick 1 chunk in 4) and all 15,116,544 classes through Modified metrics over a decoy base (quick 1 in 4): after every step every scoring method (v4: Score, Nomenclature) is called, allocations per block of 32,768 steps must be 0 (excess re-walked, then bracketed per step and method). Inputs: no optional metric, all, every optional metric alone x every value (incl. all U spellings) x 2 base backgrounds, canonical and with every X/ND written explicitly, all-but-one, seeded random subsets/spellings (v3 shuffled). evaluations = measured calls; distinct = distinct input vectors",
+		Rule:        "steady-state heap allocations per call measured with runtime.MemStats.Mallocs around " + fmt.Sprint(n) + " calls after " + fmt.Sprint(warm) + " warm-up calls, GOMAXPROCS(1), GC off, concrete methods called directly, results kept alive in package-level sinks; minimum over up to 4 repetitions (stray runtime allocations only add). Budget: successful ParseVector <= 1, Vector() == 1, Get/Set on a known metric (legal and illegal values), every scoring method, Rating, Nomenclature == 0. Also measured with MemStats read between a PRECEDING call (each of ~40 valid/invalid vectors per version, every error kind) and the measured call, so that an allocation pushed onto the next call by an earlier one (pool buffer not returned on an error path) is seen. EXHAUSTIVE WALK for Vector(): every configuration of the optional metrics of v2.0 (192,000), and in thorough of v3.0/v3.1 (221,184,000 each) and of v4.0's threat+environmental metrics (1,179,648,000; supplemental seeded per chunk) -- quick: 1 chunk in 25 / 64 -- visited in Gray-code order on a concrete object, each serialisation is followed by ParseVector of the string just produced; allocations counted per block of 32,768 steps (must equal two per step: the string and the returned object; excess re-walked, then bracketed per call: Vector() exactly 1, ParseVector at most 1). EXHAUSTIVE SCORE WALK for the methods that must not allocate: one object per chunk driven by single legal Set calls through v2.0's 139,968,000 assignments (quick: 3 of 27 chunks), v3.x's 16,588,800 effective classes through base metrics (quick: 2 of 8 chunks) plus all defined Modified assignments over a decoy base x 216 temporal/requirement settings, v4.0's base x defined E/CR/IR/AR x MSI/MSA in {X,S} (34,012,224; quick 1 chunk in 4) and all 15,116,544 classes through Modified metrics over a decoy base (quick 1 in 4): after every step every scoring method (v4: Score, Nomenclature) is called, allocations per block of 32,768 steps must be 0 (excess re-walked, then bracketed per step and method). Inputs: no optional metric, all, every optional metric alone x every value (incl. all U spellings) x 2 base backgrounds, canonical and with every X/ND written explicitly, all-but-one, seeded random subsets/spellings (v3 shuffled). evaluations = measured calls; distinct = distinct input vectors",
 		Assumptions: []string{"a property of the compiled program: decided for the toolchain in this image (" + runtime.Version() + "), plain build (no -race: the race runtime makes sync.Pool drop Puts)"},
 	})
 	c.Finish()
@@ -569,6 +569,7 @@ func c17Walk(c *Ctx) {
 							each(n)
 						} else {
 							wk.Vector()
+							wk.ParseLast()
 						}
 						n++
 						j := g.next(radix)
@@ -582,7 +583,7 @@ func c17Walk(c *Ctx) {
 				}
 				before := probe.Mallocs()
 				n, end := walkBlock(g, wk, nil)
-				delta := int64(probe.Mallocs()-before) - int64(n)
+				delta := int64(probe.Mallocs()-before) - 2*int64(n)
 				done = end
 				calls += int64(n)
 				if delta != 0 {
@@ -593,7 +594,7 @@ func c17Walk(c *Ctx) {
 						gg, ww := g0.clone(), w0.Copy()
 						b := probe.Mallocs()
 						nn, _ := walkBlock(gg, ww, nil)
-						if d := int64(probe.Mallocs()-b) - int64(nn); (d >= 0 && d < best) || (best < 0 && d > best) {
+						if d := int64(probe.Mallocs()-b) - 2*int64(nn); (d >= 0 && d < best) || (best < 0 && d > best) {
 							best = d
 						}
 					}
@@ -605,6 +606,7 @@ func c17Walk(c *Ctx) {
 						walkBlock(gg, ww, func(i int) {
 							if found >= 3 {
 								ww.Vector()
+								ww.ParseLast()
 								return
 							}
 							m0 := 99.0
@@ -614,6 +616,23 @@ func c17Walk(c *Ctx) {
 								if d := float64(probe.Mallocs() - b); d < m0 {
 									m0 = d
 								}
+							}
+							mp := 99.0
+							for t := 0; t < 3 && mp > 1; t++ {
+								b := probe.Mallocs()
+								ww.ParseLast()
+								if d := float64(probe.Mallocs() - b); d < mp {
+									mp = d
+								}
+							}
+							if mp > 1 {
+								found++
+								bcfg := a.Clone()
+								for j, m := range walkMetrics {
+									bcfg[m] = uint8(gg.dig[j])
+								}
+								c.Violate(Violation{Kind: "allocation-budget-exceeded", Version: v.Name, Steps: parseSteps(v.Canonical(bcfg)),
+									Expected: "ParseVector: at most 1 heap allocation for " + v.Canonical(bcfg), Observed: fmt.Sprintf("%.0f (exhaustive walk, block excess %d over %d steps)", mp, best, n), Detail: map[string]any{"op": "ParseVector", "workload": "exhaustive-walk"}})
 							}
 							if m0 != 1 {
 								found++
@@ -626,7 +645,7 @@ func c17Walk(c *Ctx) {
 							}
 						})
 						if found == 0 {
-							c.Violate(Violation{Kind: "allocation-budget-exceeded", Version: v.Name, Steps: parseSteps(v.Canonical(a)), Expected: fmt.Sprintf("%d Vector() calls = %d allocations", n, n), Observed: fmt.Sprintf("excess %d (minimum of 4 walks of the block), configuration not isolated", best), Detail: map[string]any{"op": "Vector", "workload": "exhaustive-walk"}})
+							c.Violate(Violation{Kind: "allocation-budget-exceeded", Version: v.Name, Steps: parseSteps(v.Canonical(a)), Expected: fmt.Sprintf("%d Vector() + ParseVector calls = %d allocations", n, 2*n), Observed: fmt.Sprintf("excess %d (minimum of 4 walks of the block), configuration not isolated", best), Detail: map[string]any{"op": "Vector", "workload": "exhaustive-walk"}})
 						}
 					}
 				}
